@@ -50,6 +50,9 @@ def run(rep):
     rep.rule('R06.6', 'every registration change on a base registry is '
              'signalled: mutators end in changed(), which bumps the generation '
              '(pull) and is forwarded to sub-registries (push)', floor=8)
+    rep.rule('R06.7', 'the recorded __bases__ are a snapshot of the assigned '
+             'sequence: the next assignment is diffed against them (link / unlink), '
+             'so they must not be the caller\'s own mutable object', floor=1)
     rep.decline('none beyond C05 (cache transparency) which this builds on')
 
     # ---- R06.1 -----------------------------------------------------------
@@ -82,6 +85,10 @@ def run(rep):
               'and calls changed(), which re-snapshots _verify_ro from '
               'self._registry.ro; that value %s recomputed from the live bases'
               % ('is' if okpull else 'is NOT'), construct='pull', node=vch)
+
+    # ---- R06.7 -------------------------------------------------------------
+    from . import identsem
+    identsem.bases_snapshot(rep, mod, 'R06.7')
 
     # ---- R06.2 -------------------------------------------------------------
     from . import sem
